@@ -5,10 +5,12 @@ import os
 VERIF = os.path.dirname(os.path.dirname(os.path.abspath(__file__)))
 
 POOL_NOTE = ("Trusted base: CPython 3.12.1 asyncio (run for real), SimLoop's FIFO batching being faithful to "
-             "BaseEventLoop._run_once, harness-owned user code. Seeded sampling + single-fault placement sweeps, not enumeration.")
+             "BaseEventLoop._run_once, harness-owned user code. Seeded sampling (uniform swarm runs, phased multi-cycle scenarios, "
+             "scale families around powers of two and ten up to ~1500 tasks, threshold placement sweeps) + single-fault placement "
+             "sweeps, not enumeration. Recorded findings (known_findings.json) are reported as KNOWN-FINDING by (property, signature, oracle).")
 
 CLAIMS = {
-    "C01": ("5.C01", "Seeded deterministic simulation of the real pool on a handle-stepped loop; size bound checked after every handle and at every user-code point, is_full at every idle point; placement sweeps of spawn/cancel steps."),
+    "C01": ("5.C01", "Seeded deterministic simulation of the real pool on a handle-stepped loop; size bound checked after every handle and at every user-code point, is_full at every idle point; placement sweeps of spawn/cancel steps; the size may be re-assigned while no task is in flight."),
     "C02": ("5.C02", "Conservation invariants at every idle point, exactly-once end callbacks and a capacity probe at the end of every run, under cancellations, exceptions, slow callbacks and overlapping flushes placed at every handle boundary of seeded base runs."),
     "C03": ("5.C03", "Ledger built from harness-owned workers/callbacks predicts (num_running, num_cancelled, num_ended) exactly at every handle boundary; per-task callback order/exactly-once and classification probes through the public API."),
     "C04": ("5.C04", "Per-request accounting of factory calls, argument identity and tasks for apply/start under blocking, competing requests, locks and unrelated cancellations; work-conservation at idle."),
@@ -23,11 +25,11 @@ CLAIMS = {
     "C13": ("5.C13", "flush (1-3 overlapping) at every boundary of runs with tasks ending, being cancelled and held in slow callbacks; forget-state interval model (must-know / may-forget / must-forget)."),
     "C14": ("5.C14", "stop(n)/stop_all on SimpleTaskPool histories with gaps; returned ids vs ledger, exactly those workers observe one cancellation."),
     "C15": ("5.C15", "Directed family over (class, old size, new size, running, waiting) x seeded timing: getter vs configured maximum, limit in force after assignment, wake-up of waiting spawners, negative values. Reports the recorded finding F-SIZE; every other oracle is strict."),
-    "C20": ("5.C20", "Real Queue on the simulated loop with gated consumer bodies, joiners and bounded queues; join() completion vs the harness count of exited blocks, qsize after every handle; consumer cancellation placed at every handle boundary (pairs on short runs)."),
-    "C16": ("5.C16", "Real server/session/parser over the simulated network: handshake under fragmentation/latency/concurrent clients for stock and shim classes (+subclasses with extra members), tcp and unix, terminal widths 1..500; help of every public member and the top-level command list. Reports the recorded finding F-C16 for the stock classes."),
-    "C17": ("5.C17", "Twin runs: each seeded command program is executed through a session over the simulated network and as the equivalent direct calls in an identical simulation; replies, pool observables and worker start records are compared command by command."),
-    "C18": ("5.C18", "Seeded valid and mutated lines, pipelined and fragmented, in 1-4 concurrent sessions: one server write per line in order, no session exception, usage/error replies leave the pool unchanged, nothing printed, no SystemExit, replies carry no foreign token, short reply after long help."),
-    "C19": ("5.C19", "Seeded server lifecycles over tcp/unix with 0-4 raw and bundled clients, every disconnect kind (close, exit, EOF, reset, vanish) and the stop swept over handle boundaries: serve_forever promptness, undisturbed sessions, completion of the cancelled serving task, refused connects, socket file removed."),
+    "C20": ("5.C20", "Real Queue on the simulated loop with gated consumer bodies, joiners and bounded queues; join() completion vs the harness count of exited blocks, qsize at idle points; consumer cancellation placed at every handle boundary (pairs on short runs); backlogs up to 1100 items and cancellation sweeps around the K-th consecutive take."),
+    "C16": ("5.C16", "Real server/session/parser over the simulated network: handshake under fragmentation/latency/concurrent clients for stock and shim classes (+subclasses with extra members), tcp and unix, every terminal width 0..140 and samples up to 65536; runs with an earlier history (restart, abrupt sessions); help of every public member (incl. static methods and mixed-case names) and the top-level command list. Reports the recorded finding F-C16 for the stock classes."),
+    "C17": ("5.C17", "Twin runs: each seeded command program is executed through a session over the simulated network and as the equivalent direct calls in an identical simulation; replies, pool observables and worker start records are compared command by command; seeded line terminators; a twin with 16 300-20 000 tasks (replies above 100 KiB)."),
+    "C18": ("5.C18", "Seeded valid and mutated lines, pipelined and fragmented, in 1-11 concurrent sessions (storms of 17-130 clients before a regular one), lines up to 60 000 characters: one server write per line in order, no session exception, usage/error replies leave the pool unchanged, nothing printed, no SystemExit, replies carry no foreign token, short reply after long help. Reports the recorded findings F-LONGLINE and F-EARLY (through a session)."),
+    "C19": ("5.C19", "Seeded server lifecycles over tcp/unix with 0-11 raw and bundled clients (storms of up to 130), restarts of the same server object (after a complete stop and while old clients are still connected), stale socket files, sessions parked in waiting commands, every disconnect kind (close, exit, EOF, reset, vanish) and the stop swept over handle boundaries: serve_forever promptness, undisturbed sessions, completion of the cancelled serving task, refused connects, socket file removed; a watchdog turns a loop stalled inside one handle into a violation. Reports the recorded finding F-PARKED."),
 }
 
 NOT_YET = {}
